@@ -43,7 +43,9 @@ def frames_of(spec):
     import numpy as np
     import pandas as pd
 
-    def col(vals, kind):
+    def col(vals, kind, d=None):
+        if kind == 'quanti' and d is not None and d.get('int64') and all(v is not None for v in vals):
+            return pd.Series([int(v) for v in vals], dtype='int64')     # 64-bit identifiers / nanosecond timestamps (beyond 2^53)
         if kind == 'quanti':
             return pd.Series([np.nan if v is None else float(v) for v in vals], dtype=spec.get('float_dtype', 'float64'))
         if spec.get('int_dtype_columns') and vals and all(isinstance(v, int) and not isinstance(v, bool) for v in vals):
@@ -51,7 +53,7 @@ def frames_of(spec):
         return pd.Series([np.nan if v is None else v for v in vals], dtype=object)
 
     feats = spec['features']
-    X = pd.DataFrame({f: col(d['values'], d['kind']) for f, d in feats.items()})
+    X = pd.DataFrame({f: col(d['values'], d['kind'], d) for f, d in feats.items()})
     if spec.get('extra_column'):
         X['zz_extra'] = list(range(len(X)))
     y = pd.Series(spec['y']) if spec.get('y') is not None else None
